@@ -49,6 +49,7 @@ func deepCopy(v Value, memo map[*Value]*Value) Value {
 			n.keys = append(n.keys, deepCopy(x.keys[i], memo))
 			n.vals = append(n.vals, deepCopy(x.vals[i], memo))
 		}
+		n.reindex()
 		return n
 	case Iface:
 		return Iface{t: x.t, v: deepCopy(x.v, memo)}
